@@ -7,11 +7,16 @@ ID = "C02"
 PROPS = "C02"
 RULE = ("well-formed request heads: method from the 9 standard + extension tokens (any case), targets incl. percent-escapes, "
         "dot segments, 900- and 1500-byte targets, HTTP/1.0 and 1.1, 0..64 headers with duplicates, case variants, empty values, "
-        "inner blanks and colons, values of 300/1100/9000 bytes, optional whitespace (SP/HTAB) around every value; pipelines of "
+        "inner blanks and colons, values of 300/1100/9000 bytes, proxy headers (X-Forwarded-For, Forwarded, X-Real-IP, Via), optional whitespace (SP/HTAB) around every value; pipelines of "
         "1..3; Unix sockets (peer address must be None) and TCP (peer address must equal the client's local address); the "
         "oracle compares what Request::method/url/http_version/headers/remote_addr report with the abstract request; "
         "non-trivial = at least one header; distinct = distinct lines")
 ASSUMPTIONS = ["getpeername() is the source of remote_addr (checked at run time only)"]
+
+
+FORWARDING = [("X-Forwarded-For", "203.0.113.7"), ("x-forwarded-for", "2001:db8::17, 10.0.0.1"), ("X-FORWARDED-FOR", "10.1.2.3"),
+              ("Forwarded", "for=192.0.2.60;proto=http;by=203.0.113.43"), ("X-Real-IP", "198.51.100.4"), ("Via", "1.1 proxy.example"),
+              ("X-Forwarded-Host", "other.example"), ("X-Forwarded-Proto", "https")]
 
 
 def rand_head(rng, tag, big):
@@ -20,6 +25,9 @@ def rand_head(rng, tag, big):
     for _ in range(nh):
         v = rng.choice(HVALUES + (["w" * 9000] if big and rng.chance(1, 10) else []))
         hs.append((rng.choice(HNAMES), v))
+    if rng.chance(1, 5):
+        # headers that proxies use to name the original client: they are ordinary headers, the peer address stays the socket's
+        hs.insert(rng.below(len(hs) + 1), rng.choice(FORWARDING))
     r = AReq(method=rng.choice(STD_METHODS + EXT_METHODS), target=random_target(rng) + "?t=" + tag,
              version=rng.choice(["1.1", "1.1", "1.0"]), headers=hs)
     if r.version == "1.0":
